@@ -1457,6 +1457,8 @@ AMBIENT_PATTERNS = [
     ("floating-point control state (MXCSR/FPCR/rounding mode)",
      r"_mm_setcsr|_MM_SET_\w+|\bsetcsr\b|ldmxcsr|fesetround|fesetenv|\bfpcr\b|set_flush_zero|set_denormals"),
     ("process environment / globals", r"\benv::set_var\b|\bset_var\s*\(|\bset_current_dir\b|\bset_hook\b"),
+    ("uninitialised memory (its contents are whatever earlier allocations of the process left behind)",
+     r"\bset_len\s*\(|\bMaybeUninit\b|\buninitialized\s*\(|\balloc\s*::\s*alloc\b|\bfrom_raw_parts(?:_mut)?\b|\bassume_init\b"),
 ]
 
 
